@@ -6,7 +6,7 @@
 #include <inttypes.h>
 static int hx(int c) { return c <= '9' ? c - '0' : (c | 32) - 'a' + 10; }
 static size_t unhex(const char *h, uint8_t **out) {
-  if (!strcmp(h, "-")) { *out = malloc(1); return 0; }
+  if (!strcmp(h, "-")) { *out = calloc(1, 1); return 0; }
   size_t n = strlen(h) / 2;
   uint8_t *b = malloc(n + 1);
   for (size_t i = 0; i < n; ++i) b[i] = (uint8_t) (hx(h[2 * i]) * 16 + hx(h[2 * i + 1]));
